@@ -8,7 +8,8 @@ From Coq Require Import ZArith List Bool String Ascii Arith.
 From LV Require Import Base.Prelude Sys.IndenterBase Gen.IndenterHoles Sys.Indenter
      Inst.IndSteps Inst.IndSteps_proofs Inst.Instance Inst.Instance_proofs Inst.World Inst.World_proofs
      Inst.ThreadsBase Gen.InstOrder Inst.Threads Inst.Threads_proofs
-     Inst.MiniLex Inst.InstCheck Inst.InstExamples.
+     Inst.MiniLex Inst.InstCheck Inst.InstExamples
+     Inst.WritesBase Gen.InstWrites Inst.Writes Inst.Writes_proofs Inst.LazyCell Inst.LazyCell_proofs.
 Import ListNotations.
 
 Section Sequential.
@@ -113,6 +114,89 @@ Print Assumptions C10_other_instances.
 Print Assumptions C10_construction_pure.
 Print Assumptions C10_configuration_immutable.
 
+(* Per-call freshness as a theorem over regenerated facts.  Gen/InstWrites.v lists - for every function that can run
+   during parse()/lex()/scan()/parse_interactive() or a session method of an interactive parser (name-based
+   over-approximation of the call graph from the entry points, ParseTreeBuilder / lexer callbacks and all dunder methods
+   included) - every store it can make, with the root of its access path; the containers a class builds for itself that
+   leave it by reference; the mutable default arguments; and every lazily initialised attribute of lark.  The four
+   finite checks say: a store through `self` outside a constructor, in a class of which the instance may hold an
+   object, hits a cell of the instance model (lexer cells, Indenter state, width cache) or of a value object (Tree);
+   stores through parameters / call results are fresh-by-construction or reviewed; no such container escapes except
+   into a reading builtin; no unreviewed mutable default; every lazy cell is known and re-reads the attribute.  Read on
+   an abstract aheap: whatever a call - any sequence of stores licensed by the facts - changes in an object held by the
+   instance is one of those cells.  A new store into instance state on a parse path (a LexerState cached on the
+   front-end, a memo in EarleyRegexpMatcher.match, a shared placeholder list handed to the node builder) makes a check
+   false: the proof no longer builds. *)
+Theorem C10_parse_paths_write_only_per_call_objects :
+  stores_ok = true /\ escapes_ok = true /\ defaults_ok = true /\ lazy_ok = true /\
+  forall (objs : nat -> obj) (tr : list stev) (h : aheap) (o : nat) (a : string),
+    typed objs -> Forall (licensed objs) tr -> o_held (objs o) = true ->
+    exec tr h (o, a) <> h (o, a) ->
+    exists c, In (c, a) (modelled_cells ++ value_cells) /\
+              exists s, In s stores /\ s_cls s = c /\ In (o_cls (objs o)) (s_family s).
+Proof. exact parse_paths_write_only_per_call_objects. Qed.
+Print Assumptions C10_parse_paths_write_only_per_call_objects.
+
+(* exactly these cells: the state of Inst/Instance.v (plus the width cache and the two Tree cells) *)
+Theorem C10_writable_cells_exact :
+  writable_held_cells =
+  [ ("Indenter", "indent_level"); ("Indenter", "paren_level"); ("BasicLexer", "callback"); ("BasicLexer", "_scanner");
+    ("BasicLexer", "_search_scanner"); ("PatternRE", "_width"); ("Tree", "children"); ("Tree", "_meta") ]%string.
+Proof. exact writable_held_cells_exact. Qed.
+Print Assumptions C10_writable_cells_exact.
+
+Section Lifted.
+(* The parsers are no longer consumers that cannot see the instance: the operation of every call (hence the demand of the
+   LALR / Earley / CYK parser, which reads its tables, callbacks and configuration) is a function of the aheap at the
+   start of the call, every call executes an arbitrary trace of licensed stores, and the probe reads only what the
+   instance holds outside the writable cells.  After any such history the probe delivers the pure function of the
+   configuration and of its reading of the INITIAL aheap. *)
+Variables Conf Sc CB LexSt Err Text : Type.
+Variable mk_scanner : Conf -> Sc.
+Variable mk_callback : Conf -> CB.
+Variable mk_search : Conf -> Sc.
+Variable at_end : LexSt -> bool.
+Variable ntfuel : LexSt -> nat.
+Variable init_ls : Text -> nat -> LexSt.
+Variable iter : Conf -> Sc -> CB -> LexSt -> iter_res LexSt Err.
+Variable search : Sc -> Text -> nat -> option nat.
+Variable sc_want : Text -> nat -> list tok -> bool.
+Variable sc_end : Text -> nat -> list tok -> pend Err -> option nat.
+Variable objs : nat -> obj.
+
+Let run_op := run_op mk_scanner mk_callback mk_search at_end ntfuel init_ls iter search sc_want sc_end.
+Let op_pure := op_pure mk_scanner mk_callback mk_search at_end ntfuel init_ls iter search sc_want sc_end.
+Let hrun := hrun Conf Sc CB LexSt Err Text mk_scanner mk_callback mk_search at_end ntfuel init_ls iter search sc_want sc_end.
+
+Theorem C10_history_pure_heap (fuel : nat) (cf : iconf Conf) (cs : list (hcall Text)) (h0 : aheap)
+        (probe : aheap -> op Text) :
+  Forall (fun c => Forall (licensed objs) (hc_trace Text c)) cs -> frame_only Text objs probe ->
+  snd (run_op fuel cf (fst (hrun fuel cf (fresh Sc CB) h0 cs)) (probe (snd (hrun fuel cf (fresh Sc CB) h0 cs))))
+  = op_pure fuel cf (probe h0).
+Proof. apply history_pure_heap. Qed.
+End Lifted.
+Print Assumptions C10_history_pure_heap.
+
+(* The other lazily initialised cells (search_scanner, PatternRE._width - and scanner itself, seen as a value cell):
+   for every schedule of any number of threads, each calling the getter any number of times, every call returns a
+   value with the builder's content, never None; a finished thread has made all its calls. *)
+Theorem C10_lazy_cells_value_safe (bval : nat) (calls : list nat) (sched : list nat) :
+  let g := lrun bval sched (linit calls) in
+  (ls_cell (fst g) = None \/ exists id, ls_cell (fst g) = Some (mkV bval id)) /\
+  Forall2 (fun c th => Forall (fun r => exists id, r = Some (mkV bval id)) (lt_res th) /\
+                       (lt_pc th = LDone -> List.length (lt_res th) = c)) calls (snd g).
+Proof. exact (lazy_value_safe bval calls sched). Qed.
+Print Assumptions C10_lazy_cells_value_safe.
+
+(* ... but which OBJECT a call returns depends on the schedule: the first of two builds is lost.  This is Tree.meta when
+   the user shares one result tree between threads (not instance state; replayed on the implementation). *)
+Theorem C10_lazy_identity_race_refuted :
+  exists sched, let g := lrun 7 sched (linit [1; 1]) in
+    map lt_res (snd g) = [[Some (mkV 7 0)]; [Some (mkV 7 1)]] /\ ls_cell (fst g) = Some (mkV 7 1) /\
+    Forall (fun th => lt_pc th = LDone) (snd g).
+Proof. exact lazy_identity_race_refuted. Qed.
+Print Assumptions C10_lazy_identity_race_refuted.
+
 (* The per-yield Indenter model used above is the regenerated C18 model with the states kept. *)
 Theorem C10_indenter_yields_agree cfg ts st : forget (run_steps cfg st ts) = Indenter.run cfg st ts.
 Proof. exact (run_steps_run cfg ts st). Qed.
@@ -204,3 +288,31 @@ Example C10_example_process :
   snd (step 50 w (WCall _ 0 ex_probe)) = WResult (snd (c_run_op 50 ex_cf (fresh _ _) ex_probe)) /\
   option_map (fun p => ind (snd p)) (nth_error (w_insts w) 0) = Some (mkSt 2 [0%Z]).
 Proof. vm_compute. repeat split; reflexivity. Qed.
+
+(* ... and a call on a heap: object 0 is the instance's BasicLexer, 1 a ParserState of this call, 2 the front-end.  The
+   trace (the lexer publishes its scanner, the parser pushes a value, a LexerState is created) is licensed by the
+   regenerated facts; the scanner cell changes, the front-end's parser and the lexer's terminals do not. *)
+Definition ex_objs (o : nat) : obj :=
+  match o with
+  | 0 => mkObj "BasicLexer" true | 2 => mkObj "ParsingFrontend" true
+  | 1 => mkObj "ParserState" false | _ => mkObj "LexerState" false
+  end%string.
+Definition ex_trace : list stev :=
+  [ mkW "lark/lexer.py:LexerState.__init__" 3 "text" 4;
+    mkW "lark/lexer.py:BasicLexer._build_scanner" 0 "callback" 6;
+    mkW "lark/lexer.py:BasicLexer.scanner" 0 "_scanner" 5;
+    mkW "lark/parsers/lalr_parser_state.py:ParserState.feed_token" 1 "value_stack" 9 ]%string.
+Example C10_example_heap :
+  typed ex_objs /\ Forall (licensed ex_objs) ex_trace /\
+  let h0 : aheap := fun _ => 0 in
+  exec ex_trace h0 (0, "_scanner"%string) = 5 /\ exec ex_trace h0 (0, "terminals"%string) = 0 /\
+  exec ex_trace h0 (2, "parser"%string) = 0 /\
+  writable "BasicLexer" "terminals" = false /\ writable "ParsingFrontend" "parser" = false /\
+  licensedb ex_objs (mkW "lark/parser_frontends.py:ParsingFrontend.parse" 2 "lexer_state" 1) = false.
+Proof.
+  split.
+  - intros o H. destruct o as [|[|[|o]]]; cbn in H; try discriminate; vm_compute; tauto.
+  - split.
+    + repeat constructor; apply licensedb_sound; vm_compute; reflexivity.
+    + vm_compute. repeat split; reflexivity.
+Qed.
